@@ -365,7 +365,7 @@ func (z *ZodTuple[T, R]) validateTupleForEngine(arr []any, chks []core.ZodCheck,
 
 	// Return error if any issues collected.
 	if len(collectedIssues) > 0 {
-		return nil, issues.CreateArrayValidationIssues(collectedIssues)
+		return nil, issues.CreateArrayValidationIssues(collectedIssues, ctx)
 	}
 
 	// Apply additional checks.
